@@ -174,7 +174,7 @@ def run_step(prog, n0, i0, frames, base=BOTTOM, ranges=None, max_configs=20000):
     ov['<I as std::iter::IntoIterator>::into_iter'] = lambda m, cfg, f, args, t: args[0]
     # strings: the chunk loops are T-SKIP's / T-CHUNK's business (exact consumption); for the counters a string is one scalar item
     for it in ('BytesIter', 'StrIter'):
-        ov["<minicbor::decode::decoder::%s<'a, 'b> as std::iter::Iterator>::next" % it] = (
+        ov["<minicbor::decode::decoder::%s<'_, '_> as std::iter::Iterator>::next" % it] = (
             lambda m, cfg, f, args, t: Fork([(None, NONE), (lambda s: s.events.append(('EOI', 'chunk')), some(err(l1.eoi_error())))]))
     m = Machine(prog, prims=prims.P, overrides=ov, max_configs=max_configs, max_steps=4000000)
     m.cuts = {outer_head}
